@@ -673,6 +673,10 @@ func c09Gen(tier string, rng *rand.Rand) []c09Case {
 	var cs []c09Case
 	pick := func(l ...int) int { return l[rng.Intn(len(l))] }
 	base := func(name, conn string, acts []c09Act) c09Case {
+		if tier == "thorough" && rng.Intn(2) == 0 {
+			return c09Case{Name: name, Conn: conn, Acts: acts, Callers: 1, Calls: 1, TimeoutMs: 160 + 10*rng.Intn(25), DialMs: 250 + 10*rng.Intn(20),
+				WriteMs: 400 + 20*rng.Intn(10), ReadMs: 40 + 10*rng.Intn(10), QueueLen: pick(2, 4, 16, 100, 1000), Filter: []string{"prepost", "cf"}[rng.Intn(2)], Predict: true, Warm: true}
+		}
 		return c09Case{Name: name, Conn: conn, Acts: acts, Callers: 1, Calls: 1, TimeoutMs: pick(200, 250, 300), DialMs: pick(300, 400),
 			WriteMs: pick(400, 500), ReadMs: pick(50, 100), QueueLen: pick(4, 100, 1000), Filter: []string{"prepost", "cf"}[rng.Intn(2)], Predict: true, Warm: true}
 	}
@@ -693,7 +697,7 @@ func c09Gen(tier string, rng *rand.Rand) []c09Case {
 	r10 := func(v int) int { return v / 10 * 10 }
 	rounds := 1
 	if tier == "thorough" {
-		rounds = 8
+		rounds = 30
 	}
 	for round := 0; round < rounds; round++ {
 		// ---- one sequential caller
@@ -785,11 +789,15 @@ func c09Gen(tier string, rng *rand.Rand) []c09Case {
 		c.Callers = pick(2, 4, 16)
 		cs = append(cs, prime(c))
 		for _, k := range []string{"close", "garblen"} {
+			// (room for every caller in the send queue: what a sender goroutine does with queued requests once its
+			// connection is lost is C11's subject)
 			c = base(k+"-on-request", "accept", []c09Act{{Do: k}})
+			c.QueueLen = 100
 			c.Callers = pick(1, 2, 6)
 			cs = append(cs, c)
 		}
 		c = base("close-on-accept", "accept-close", []c09Act{{Do: "none"}})
+		c.QueueLen = 100
 		c.Callers = pick(1, 3)
 		cs = append(cs, c)
 		c = base("garbage-body-concurrent", "accept", []c09Act{{Do: "garbbody", DelayMs: 40}})
@@ -921,6 +929,9 @@ func c09Class(c *c09Case) string {
 func init() {
 	props["c09-worker"] = func(a Args) { c09Worker() }
 	props["C09"] = func(a Args) {
+		if a.Replay != "" && c09WheelReplay(a) {
+			return
+		}
 		runProp(Prop[c09Case]{
 			ID:       "C09",
 			Require:  "From TarsV Require Import Conc.CallLife.",
